@@ -12,8 +12,9 @@ PROPS = {
 }
 DEVIATIONS = {  # cfg suffix -> invariant TLC must report
     "IgnoreReply": "C32_Acked", "IgnoreReplyMulti": "C32_Acked", "SubsetParts": "C32_Stored",
-    "HashBeforeStore": "C32_Stored", "IgnoreCompleteErr": "C32_Stored",
+    "HashBeforeStore": "C32_Stored", "IgnoreCompleteErr": "C32_Stored", "NegativeAck": "C32_Acked", "EmptyAck": "C32_Acked",
 }
+NO_ACK = 1000  # harness/model value for 'the broker gave no code for the partition'
 UNIT = 1 << 20  # one model size unit = 1 MiB (part size / minimum part size = 5 units)
 
 
@@ -58,7 +59,8 @@ def sig_of(inv, run, ev):
     """What fails: predicate + request kind + the discriminating circumstance of the schedule."""
     kind = ev["ev"].lower()
     if inv == "C32_Acked":
-        cls = "broker_reply_code_%s" % ("none" if ev["o"]["ack"] < 0 else "nonzero")
+        a = ev["o"]["ack"]
+        cls = "broker_reply_code_%s" % ("none" if a == NO_ACK else "negative" if a < 0 else "nonzero")
     else:
         o = ev["o"]
         if not o["objExists"]:
@@ -94,7 +96,15 @@ def check(ctx, prop):
     if quick:
         fin = [h for h in cover if h[-1]["a"] in ("Complete", "Single")]
         oth = [h for h in cover if h[-1]["a"] not in ("Complete", "Single")]
-        pick = rnd.sample(fin, min(110, len(fin))) + rnd.sample(oth, min(30, len(oth)))
+        # stratified by (request kind, broker reply) so that every reply of the alphabet is replayed on both upload paths
+        groups = {}
+        for h in fin:
+            groups.setdefault((h[-1]["a"], h[-1]["reply"]), []).append(h)
+        pick = []
+        for k in sorted(groups):
+            want = 24 if k[1] == "ok" else 10   # "ok" also labels the requests that never reach the produce
+            pick += rnd.sample(groups[k], min(want, len(groups[k])))
+        pick += rnd.sample(oth, min(30, len(oth)))
     else:
         pick = cover
     for h in pick:
